@@ -273,7 +273,9 @@ def run(ctx):
                     break
         tags[code] = tag
         add('chk_lin %d %d' % (code, tag), ('lin', code, tag))
-        add('chk_none %s' % coq_sensor(code % 4, code, 3, 4, -1, 1), ('none', code))
+        sn = mk(code % 4, code, 3, 4, -1, 1)
+        add('chk_none %s %s' % (coq_sensor(code % 4, code, 3, 4, -1, 1),
+                                C.c_bool(attempt(lambda: sn.convert_sensor_raw_to_value(None)) is None)), ('none', code))
     cfgs = []
     for i, (m, b) in enumerate(pairs[:40] + [(0, 7), (0, 0)] + (pairs[40:200] if not q else [])):
         ex = [(0, 0), (-8, -8), (7, 7), (-8, 7), (7, -8), (-1, 0), (0, -1)] + [rng.choice(exps) for _ in range(17 if i < 42 else 3)]
